@@ -592,6 +592,7 @@ func runActCase(cs *ActCase) (fs []finding) {
 	dEmpty := &probeNode{flyt.NewBaseNode(), &decoyEmpty}
 	dOther := &probeNode{flyt.NewBaseNode(), &decoyOther}
 	f := flyt.NewFlow(node)
+	f.Connect(node, "abort", nil) // an explicit end on ANOTHER action says nothing about the action the node reports
 	if !cs.EmptyLast {
 		f.Connect(node, "", dEmpty)
 	}
@@ -608,6 +609,7 @@ func runActCase(cs *ActCase) (fs []finding) {
 			f.Connect(node, flyt.Action(a), dOther)
 		}
 	}
+	f.Connect(node, "give-up", nil)
 	if cs.EmptyLast {
 		f.Connect(node, "", dEmpty) // configured last: still a pair of its own that a successful run never selects
 	}
